@@ -542,13 +542,12 @@ def _stale(B, sym, d, chosen, site_bb, F=None):
     # places read through a reference (`self.sp`, `scope.instructions.code`): fields that may be written in between
     fields = set()      # (root local, field name)
     for x in M.subterms(sym):
-        if x[0] == "field" and isinstance(x[2], str) and not x[2].isdigit():
+        if x[0] == "field" and isinstance(x[2], str):
             r = x[1]
-            through_ref = False
             while r[0] in ("field", "deref", "ref", "index", "downcast"):
-                through_ref = through_ref or r[0] == "deref"
                 r = r[1]
-            if through_ref and r[0] in ("var", "arg", "tmp"):
+            # (a `.0` of a checked operation or of a call result is not a place)
+            if r[0] in ("var", "arg", "tmp"):
                 fields.add((r[2] if r[0] != "tmp" else r[1], x[2]))
     # ... and anything else read through a `&mut` reference (`v.len()` with v: &mut Vec): changed by whoever is handed v mutably
     mroots = set()
@@ -599,7 +598,7 @@ def _stale(B, sym, d, chosen, site_bb, F=None):
                 continue
             for st in blk["stmts"]:
                 if st["k"] == "assign" and st["lhs"]["p"]:
-                    if any(isinstance(pe, dict) and pe.get("n") in names for pe in st["lhs"]["p"]):
+                    if any(isinstance(pe, dict) and "f" in pe and ((pe.get("n") or str(pe.get("f"))) in names) for pe in st["lhs"]["p"]):
                         return True
             tt = blk["term"]
             if tt["k"] == "call" and bi != site_bb:
